@@ -10,27 +10,24 @@ COMMON = dict(src=SRC, env=["vp_alloc.c", "vp_libc.c"], units=UNITS, unwind=14, 
               assumptions=["allocation never fails", "the mapping handed out by mmap is an object of exactly the announced length"])
 DUP = ["hwloc__topology_dup", "hwloc__topology_init", "hwloc__duplicate_object", "hwloc_bitmap_tma_dup", "hwloc__tma_dup_infos", "hwloc_tma_strdup", "hwloc_tma_calloc", "hwloc_internal_distances_dup", "hwloc_internal_memattrs_dup", "hwloc_internal_cpukinds_dup"]
 HARNESSES = [
-  dict(COMMON, name="alloc", entry="h_alloc", encoded=["tma_shmem_malloc", "tma_get_length_malloc (arithmetic)"], tiers={"quick": {}, "thorough": {}}, units=[], unwind=8,
+  dict(COMMON, name="alloc", entry="h_alloc", encoded=["tma_shmem_malloc", "tma_get_length_malloc (arithmetic)"], tiers={"quick": {}, "thorough": {}}, units=[], unwind=8, checks="functional",
        bounds="6 requests of any size below 2^32"),
-  dict(COMMON, name="write_adopt_s3", entry="h_write_adopt", defines={"SEED": 3}, encoded=["hwloc_shmem_topology_get_length", "hwloc_shmem_topology_write", "hwloc_shmem_topology_adopt", "hwloc__topology_disadopt", "hwloc_topology_destroy"] + DUP,
-       tiers={"quick": {}, "thorough": {}}, bounds="seed S3 (+ a name, a topology info, the standard memory attributes); mapping = heap object of exactly get_length() bytes; page size 8", cost=60),
-  dict(COMMON, name="write_adopt_allow_s4", entry="h_write_adopt", defines={"SEED": 4}, encoded=["hwloc_shmem_topology_write", "hwloc_shmem_topology_adopt", "hwloc_topology_allow"] + DUP,
-       tiers={"quick": {}, "thorough": {}}, bounds="seed S4 loaded with INCLUDE_DISALLOWED (a disallowed PU and node); allow(ALL) on the adopted copy", cost=80),
-  dict(COMMON, name="header", entry="h_header", encoded=["hwloc_shmem_topology_adopt", "hwloc_topology_abi_check"], tiers={"quick": {}, "thorough": {}},
-       bounds="header fields, flags, address/length arguments, ABI word and the kernel's placement (requested address / elsewhere / failure) symbolic"),
   dict(COMMON, name="guards", entry="h_guards", encoded=["hwloc_topology_restrict", "hwloc_topology_alloc_group_object", "hwloc_topology_insert_group_object", "hwloc_topology_insert_misc_object", "hwloc_distances_add_create", "hwloc_distances_remove", "hwloc_distances_remove_by_depth", "hwloc_topology_diff_apply", "hwloc_topology_free_group_object"],
        tiers={"quick": {}, "thorough": {}}, bounds="seed S1 marked as adopted; which of the 9 entry points and its arguments symbolic"),
-  dict(COMMON, name="dup_blocks_s2", entry="h_dup_blocks", defines={"SEED": 2}, encoded=DUP, tiers={"quick": {}, "thorough": {}},
-       bounds="seed S2 with a name of symbolic length 0..5 and content, a half-full info array; every tma request served by a heap object of exactly the requested size", cost=60),
   ]
-PIPE_UW = dict({"vp_mini_build_at.%d" % k: 24 for k in range(12)}, **{"strlen.0": 8, "strcpy.0": 8, "strcmp.0": 8, "write.0": 25, "read.0": 25, "hwloc__topology_dup.0": 24, "hwloc__topology_dup.1": 24, "hwloc__topology_dup.2": 24,
-               "hwloc__topology_init.0": 24, "hwloc__topology_filter_init.0": 24, "hwloc_reset_normal_type_depths.0": 24, "hwloc_topology_clear.0": 24,
-               "hwloc_connect_levels.0": 24, "hwloc_connect_levels.1": 24, "hwloc_connect_levels.2": 24, "hwloc_connect_levels.3": 24, "hwloc_connect_levels.4": 24, "hwloc_connect_levels.5": 24,
-               "hwloc_connect_special_levels.0": 24, "hwloc_connect_special_levels.1": 24})
-for incl in (0, 1):
-  HARNESSES.append(dict(src="C19_pipeline.c", env=["vp_alloc.c", "vp_libc.c"], units=["hwloc/bitmap.c", "hwloc/traversal.c", "hwloc/topology.c", "hwloc/distances.c", "hwloc/memattrs.c", "hwloc/cpukinds.c"],
-       name="pipeline_allow" if incl else "pipeline", entry="h_pipeline", defines={"INCL": incl}, unwind=10, unwindset=PIPE_UW, checks="safety", object_bits=12, fs_array=256, timeout=1700,
-       encoded=["hwloc_shmem_topology_get_length", "hwloc_shmem_topology_write", "hwloc_shmem_topology_adopt", "hwloc__topology_disadopt", "hwloc_topology_destroy", "tma_shmem_malloc", "tma_get_length_malloc"] + DUP + (["hwloc_topology_allow"] if incl else []),
-       tiers={"quick": {}, "thorough": {}}, stubs=COMMON["stubs"][:2] + ["topology: the hand-linked 9-object topology of vp_mini.h + a name and a topology info"], assumptions=COMMON["assumptions"],
-       bounds="one concrete topology (9 objects, a name, an info pair%s); the mapping is a heap object of exactly get_length() bytes; page size 8; the run is concrete: CBMC acts as a bounds-checking interpreter of the whole pipeline" % ("; INCLUDE_DISALLOWED with a disallowed PU and node, allow(ALL) on the adopted copy" if incl else ""), cost=100))
+IO = dict(src="C19_io.c", env=["vp_alloc.c", "vp_libc.c"], units=["hwloc/bitmap.c", "hwloc/traversal.c", "hwloc/topology.c"], unwind=8, checks="safety", object_bits=11, timeout=1500,
+          unwindset=dict({"vp_mini_build_at.%d" % k: 24 for k in range(12)}, **{"hwloc_topology_abi_check.0": 24}),
+          stubs=["hwloc__topology_dup: contract model performing 1..4 allocator requests of symbolic sizes (<= 4096) through the tma it is given; what the real dup requests is decided by dup_blocks",
+                 "lseek/read/write/ftruncate/mmap/munmap/sysconf: fault and placement model (page size 8)", "distances/memattrs refresh, components init/fini: recorders"],
+          assumptions=["allocation never fails", "the mapping handed out by mmap is an object of exactly the announced length"])
+import importlib.util as _iu
+_s = _iu.spec_from_file_location("spec_C12", os.path.join(os.path.dirname(__file__), "C12.py")); _m = _iu.module_from_spec(_s); _s.loader.exec_module(_m)
+for _h in _m.HARNESSES:
+    if _h["name"].startswith("dup_blocks_mini"): HARNESSES.append(dict(_h))      # same query serves C12 and C19
+HARNESSES.append(dict(IO, name="write_any_requests", entry="h_write", encoded=["hwloc_shmem_topology_get_length", "hwloc_shmem_topology_write", "tma_get_length_malloc", "tma_shmem_malloc"], tiers={"quick": {}, "thorough": {"defines": {"NREQ": 6}}},
+       bounds="1..4 (thorough: 6) allocator requests of any size <= 4096 bytes; file offsets 0..4 pages; flags 0/1; every OS call may fail; the kernel may place the mapping elsewhere", cost=40))
+HARNESSES.append(dict(IO, name="adopt_validation", entry="h_adopt", defines={"VALID": 0}, encoded=["hwloc_shmem_topology_adopt", "hwloc_topology_abi_check"], tiers={"quick": {}, "thorough": {}},
+       bounds="header fields, ABI word, length argument, flags 0/1 and the kernel's placement (requested address / elsewhere / failure) symbolic; stored topology = the hand-linked 9-object topology", cost=40))
+HARNESSES.append(dict(IO, name="adopt_allow_destroy", entry="h_adopt", defines={"VALID": 1}, encoded=["hwloc_shmem_topology_adopt", "hwloc__topology_disadopt", "hwloc_topology_allow", "hwloc_topology_destroy", "hwloc__tma_dup_infos"], tiers={"quick": {}, "thorough": {}},
+       bounds="a matching header and a cooperative kernel (concrete); the stored copy was loaded with INCLUDE_DISALLOWED and carries ANY non-empty allowed cpuset/nodeset inside the topology; allow(ALL) then destroy on the adopted copy", cost=40))
 OUTSIDE = ["real mmap protection faults, cross-process address availability", "page sizes other than the stub's", "topologies other than the seeds"]
